@@ -140,6 +140,30 @@ func c19Check(o *fw.Out, s string, what string) bool {
 			o.Viol("escapemacro-roundtrip|"+failingClasses(s, inputrc.EscapeMacro), fmt.Sprintf("%s: Unescape(EscapeMacro(%q)) = %q (notation %q)", what, s, u, em))
 			ok = false
 		}
+		// The notation is written between double quotes by dump-functions / dump-macros: the
+		// line they print for this sequence must read back as this sequence. (The empty
+		// sequence cannot be bound; NUL-led sequences are refused by the parser.)
+		if ok && s != "" {
+			o.O.Events++
+			cfg, cfgM := inputrc.NewConfig(), inputrc.NewConfig()
+			err := inputrc.ParseBytes([]byte("\""+e+"\": self-insert\n"), cfg)
+			inputrc.ParseBytes([]byte("\"z\": \""+em+"\"\n"), cfgM)
+			b, found := cfg.Binds["emacs"][s]
+			m := cfgM.Binds["emacs"]["z"]
+			switch {
+			case err != nil || !found || b.Action != "self-insert" || b.Macro:
+				var got []string
+				for k := range cfg.Binds["emacs"] {
+					got = append(got, fmt.Sprintf("%q", k))
+				}
+				sort.Strings(got)
+				o.Viol("quoted-notation-does-not-read-back|key-sequence|"+runeClassSig(s), fmt.Sprintf("%s: the dump line %q binds %s instead of %q (err=%v)", what, "\""+e+"\": self-insert", strings.Join(tail(got, 3), " "), s, err))
+				ok = false
+			case !m.Macro || m.Action != s:
+				o.Viol("quoted-notation-does-not-read-back|macro|"+runeClassSig(s), fmt.Sprintf("%s: the dump line %q gives the macro %q instead of %q", what, "\"z\": \""+em+"\"", m.Action, s))
+				ok = false
+			}
+		}
 	}()
 	return ok
 }
@@ -243,6 +267,20 @@ func c19Dump(env *fw.Env, c *c19Case, o *fw.Out) {
 		plan = steps("\x1b", "\x18\x01", "1", "\x18\x02", "\x18\x01", "1", "\x18\x03", "\x18\x01", "1", "\x18\x04", "\x18\x01")
 	}
 	res := s.Call(plan, retExit)
+	if res.CPUSpin || res.MemBlowup {
+		// a generated configuration may bind a key the session types (RET, 1, ESC, C-x) to a
+		// macro whose body contains its own key sequence: endless by configuration, and not
+		// what this property is about
+		for _, m := range s.Sh.Config.Binds {
+			for seq, b := range m {
+				if b.Macro && seq != "" && strings.Contains(b.Action, seq) {
+					o.Inc("dump session not finished: the generated configuration binds a macro that feeds itself")
+					o.O.Recycle = true
+					return
+				}
+			}
+		}
+	}
 	if !stdFailures(o, res, "dump session mode="+c.Mode) {
 		return
 	}
@@ -417,7 +455,7 @@ func init() {
 		ID:        "C19",
 		Level:     "exploration",
 		NeedsTerm: true,
-		Rule: "Unescape(Escape(s)) == s and Unescape(EscapeMacro(s)) == s for: every single rune 0x00-0xFF (exhaustive), every pair of such runes (65536, exhaustive, 256 cases), every bound sequence and macro body of every keymap of the default configuration, random sequences of 1-12 runes over 0x00-0xFF and printable Unicode; plus sessions that run dump-functions/dump-variables/dump-macros with a numeric argument on configurations produced by C13's generator and parse the captured output back. " +
+		Rule: "Unescape(Escape(s)) == s and Unescape(EscapeMacro(s)) == s for: every single rune 0x00-0xFF (exhaustive), every pair of such runes (65536, exhaustive, 256 cases), every bound sequence and macro body of every keymap of the default configuration, random sequences of 1-12 runes over 0x00-0xFF and printable Unicode; for each of them also the line dump-functions / dump-macros would print (the notation between double quotes, as a key sequence bound to self-insert and as a macro body) is parsed back with the inputrc parser and must bind exactly that sequence / give exactly that macro; plus sessions that run dump-functions/dump-variables/dump-macros with a numeric argument on configurations produced by C13's generator and parse the captured output back. " +
 			"distinct non-trivial = distinct (kind, block / keymap / rune-class set / mode) tuples",
 		Assumptions: []string{"the exhaustive part is complete only when all cases of the tier ran (the driver reports cases_planned vs evaluations)"},
 		N: func(tier string) int {
